@@ -56,11 +56,20 @@ class TMiddleware : public Middleware
 public:
     int id; bool ok; QStringList *obs; bool soft = false;
     bool okWarm = false;                 // verdict `2`: admits the earlier (unobserved) requests, refuses the observed one
+    bool selfDelete = false;             // verdict `3`
+    QList<QObject *> *ownedList = nullptr;
     const bool *warming = nullptr;
     TMiddleware(int i, bool o, QStringList *l) : id(i), ok(o), obs(l) {}
     bool process(Socket *socket) override
     {
         if (okWarm && warming && *warming) { obs->append(QString("mw:%1:1").arg(id)); return true; }
+        if (selfDelete) {
+            // a one-shot middleware: accepts and destroys itself before process() returns
+            obs->append(QString("mw:%1:1").arg(id));
+            if (ownedList) ownedList->removeAll(this);
+            delete this;
+            return true;
+        }
         obs->append(QString("mw:%1:%2").arg(id).arg(ok ? 1 : 0));
         if (!ok && soft) {
             // writes its own complete response and leaves the connection open
@@ -126,7 +135,7 @@ void runRoute(const Scn &scn, Out &out)
             if (p[2] == "-1") root = h; else nodes[p[2].toInt()]->addSubHandler(pats[p[3].toInt()], h);
         }
         else if (p[0] == "redir") nodes[p[1].toInt()]->addRedirect(pats[p[2].toInt()], un16(p[3]));
-        else if (p[0] == "mw") { TMiddleware *m = new TMiddleware(p[2].toInt(), p[3] == "1", obs); m->soft = soft; m->okWarm = p[3] == "2"; m->warming = &warming;
+        else if (p[0] == "mw") { TMiddleware *m = new TMiddleware(p[2].toInt(), p[3] == "1", obs); m->soft = soft; m->okWarm = p[3] == "2"; m->warming = &warming; m->selfDelete = p[3] == "3"; m->ownedList = &owned;
                                  owned << m; nodes[p[1].toInt()]->addMiddleware(m); }
         else if (p[0] == "req") raw = unhx(p[1]);
     }
@@ -178,6 +187,7 @@ void runRoute(const Scn &scn, Out &out)
     if (tcp) tcp->log = nullptr;
     QStringList sink;
     foreach (QObject *o, owned) { if (auto h = dynamic_cast<THandler *>(o)) h->obs = &sink; if (auto m = dynamic_cast<TMiddleware *>(o)) m->obs = &sink; }
+    // (a handler still holds the raw pointer of a middleware that destroyed itself: nothing is routed any more)
     delete server;
     qDeleteAll(owned);
     eventTurn();
